@@ -424,7 +424,22 @@ class APE:
             if not only_locals:
                 wf = self.cg.call_wfields(self.unit, n, self.f)
                 if wf is None:
-                    self._invalidate_memory(st)
+                    # library / user code: writes only through the pointers it is handed (one level)
+                    st.epoch += 1
+                    for i in sorted(widx):
+                        if i >= len(args):
+                            continue
+                        a = strip(args[i])
+                        if a["k"] == "UnaryOperator" and a.get("op") == "&":
+                            root = self._valkey(st, a["kids"][0])
+                            pref = (root + ".", root + "->", root + "[")
+                            for k in [k for k in st.env if k == root or k.startswith(pref)]:
+                                del st.env[k]
+                        elif a["k"] in ("DeclRefExpr", "MemberExpr"):
+                            root = self._valkey(st, a)
+                            pref = ("*" + root, root + "->", root + "[")
+                            for k in [k for k in st.env if k.startswith(pref)]:
+                                del st.env[k]
                 else:
                     # type-based refinement: only keys ending in a field the callee may store to
                     st.epoch += 1
@@ -602,9 +617,14 @@ class APE:
         key = (vstr(v), "switch")
         default = None
         cases = []
-        for s in B.succs:
+        for s, ps in zip(B.succs, B.psuccs):
             if s is None:
-                continue
+                # clang prunes the default edge of a switch that covers every enumerator; a value
+                # outside the enumeration (e.g. read from a file) still takes it
+                if ps is not None and f.blocks[ps].labelk == "DefaultStmt":
+                    s = ps
+                else:
+                    continue
             lab = f.blocks[s].label
             if lab is not None and lab["k"] == "CaseStmt":
                 cases.append((s, lab.get("caseval"), lab.get("casename")))
